@@ -130,9 +130,10 @@ def _check_removers(repo, rep):
 
 def _check_filters(repo, rep):
     svg = repo["svg"]
+    from sa.rules import groups
+    groups.check_removable_predicate(repo, rep, "R-SITE.redundant-filter", "comments / processing instructions among the children must not influence the keep-or-flatten decision")
+    groups.check_try_remove_group(repo, rep, "R-SITE.redundant-filter", "comments among the children must be skipped when the opacity is pushed")
     sites = {
-        "_is_removable_group": ("sum((1 for e in el if not _is_redundant(e.tag)))", "child count of the keep/flatten decision"),
-        "_try_remove_group": ("if _is_redundant(child.tag):\n    continue", "opacity push over children"),
         "SVG._traverse": ("if _is_redundant(child.tag):\n    continue", "traversal (nth-of-type numbering, context building)"),
         "SVG._iter_nested_svgs": ("if _is_redundant(el.tag):\n    continue", "nested svg search"),
     }
@@ -163,14 +164,6 @@ def _check_filters(repo, rep):
         rep.ok("R-SITE.redundant-filter", "svg._is_redundant: comments and processing instructions")
     else:
         rep.fail("R-SITE.redundant-filter", "svg._is_redundant", "tag is etree.Comment or tag is etree.ProcessingInstruction", "the set of ignorable node kinds changed", svg, ir)
-    dec = svg.func("_is_removable_group")
-    b = [unparse(s) for s in dec.body if not (isinstance(s, ast.Expr) and isinstance(s.value, ast.Constant))]
-    i_attr = next((i for i, x in enumerate(b) if x.startswith("if len(el.attrib) == 0:")), -1)
-    i_cnt = next((i for i, x in enumerate(b) if x.startswith("num_children =")), -1)
-    if 0 <= i_attr < i_cnt:
-        rep.ok("R-SITE.redundant-filter", "svg._is_removable_group: attribute-less groups removable before children are counted")
-    else:
-        rep.fail("R-SITE.redundant-filter", "svg._is_removable_group", "if len(el.attrib) == 0: return True", "attribute-less wrapper groups are no longer always removable", svg, dec)
 
 
 _S = "svg"
